@@ -275,8 +275,17 @@ class Check:
         self.violations.append((key, desc, path))
         return True
 
+    def extension(self, key, desc, replay_obj=None):
+        """A divergence between the code and a specification EXTENSION that lies outside the statement of the listed property: reported
+        (EXTENSION-NONCONFORMANCE line, evidence) but not a violation of the property - the exit status is not affected."""
+        if not hasattr(self, "ext_notes"):
+            self.ext_notes = []
+        self.ext_notes.append({"key": key, "desc": desc[:600]})
+
     def finish(self):
         self.cov["distinct_nontrivial"] = len(self._distinct)
+        if getattr(self, "ext_notes", None):
+            self.notes["extension_nonconformances"] = self.ext_notes[:20]
         wall = time.time() - self.t0
         ev = {"property_id": self.pid, "tier": self.tier, "seed": self.seed, "level": self.level,
               "coverage": dict(self.cov, **self.notes), "assumptions": self.assumptions, "wall_s": round(wall, 2),
@@ -295,6 +304,8 @@ class Check:
             json.dump(ev, f, indent=1, default=str)
         for k in self.known_hit:
             print("KNOWN-FINDING: property=%s %s [%s]" % (self.pid, k["what"], k["id"]))
+        for x in getattr(self, "ext_notes", [])[:10]:
+            print("EXTENSION-NONCONFORMANCE (outside the statement of %s, not a violation): %s" % (self.pid, x["desc"][:400]))
         for key, desc, path in self.violations[:20]:
             print("VIOLATION property=%s replay=%s" % (self.pid, path))
             print("  " + desc)
